@@ -371,7 +371,7 @@ func checkC06(c c06Case, o *Obs) error {
 	if c.CLI && gofastaBin() != "" {
 		dir, cleanup := caseDir("c06cli")
 		defer cleanup()
-		args := []string{"closest", "--query", writeFile(dir, "q.fa", qt), "--target", writeFile(dir, "t.fa", tt), "-m", c.Measure, "-t", strconv.Itoa(c.Threads)}
+		args := []string{"closest", "--query", writeFile(dir, "q.fa", qt), "--target", writeFile(dir, "t.fa", tt), "-m", cliSpelling(c.Measure, len(qt)+len(tt)), "-t", strconv.Itoa(c.Threads)}
 		switch c.Mode {
 		case "n":
 			args = append(args, "-n", strconv.Itoa(c.K))
@@ -566,4 +566,15 @@ func sharesName(queries, targets []FaRec) bool {
 		}
 	}
 	return false
+}
+
+// cliSpelling: the command line accepts the measure in any letter case; which spelling a case uses is a pure function of the case.
+func cliSpelling(measure string, k int) string {
+	switch k % 3 {
+	case 0:
+		return strings.ToUpper(measure)
+	case 1:
+		return strings.ToUpper(measure[:1]) + measure[1:]
+	}
+	return measure
 }
